@@ -26,6 +26,7 @@ func main() {
 	replay := flag.String("replay", "", "replay file (JSON with an ops list)")
 	work := flag.String("work", "", "scratch directory (default: the system temporary directory)")
 	victim := flag.String("victim", "", "internal: run as the victim process of the disk component (JSON spec)")
+	budgetSec := flag.Int("budget", 0, "wall-clock budget in seconds for generating and evaluating cases (0 = none)")
 	locate := flag.Bool("locate", false, "crash isolation: regenerate the cases and run them in a child process to find the one the process dies on")
 	childCases := flag.String("childcases", "", "internal: run the implementation on the cases of this file (child of -locate)")
 	from := flag.Int("from", 0, "internal: first case index (child of -locate)")
@@ -47,6 +48,7 @@ func main() {
 		fmt.Fprintln(os.Stderr, "unknown component", flag.Arg(0))
 		os.Exit(2)
 	}
+	budget = time.Duration(*budgetSec) * time.Second
 	if *childCases != "" {
 		runChild(mk(), *childCases, *from, *to)
 		return
